@@ -12,7 +12,7 @@ import json
 import math
 
 from . import common
-from .c09 import (RTOL, bits, lat_words, latok_defects, lattice_spec, make_lattice, plain_geometry, sym_tensor, unbits)
+from .c09 import (K8PI2, RTOL, bits, lat_words, latok_defects, lattice_spec, make_lattice, plain_geometry, rotation, sym_tensor, unbits)
 
 
 def gen_case(rng, maxchain):
@@ -20,12 +20,18 @@ def gen_case(rng, maxchain):
     lats = []
     for k in range(nl):
         w = rng.random()
-        if k > 0 and w < 0.12:
+        if k > 0 and w < 0.10:
             lats.append({"kind": "supercell", "of": 1, "n": [rng.randint(1, 3), rng.randint(1, 3), rng.randint(1, 4)]})
-        elif k > 0 and w < 0.2:
+        elif k > 0 and w < 0.17:
             lats.append({"kind": "copy", "of": 1})
+        elif k > 0 and w < 0.29:
+            # the SAME six cell parameters as lattice 1, different orientation, through baserot=
+            lats.append({"kind": "rot-baserot", "of": 1, "rot": rotation(rng).tolist()})
+        elif k > 0 and w < 0.41:
+            # the same cell, different orientation, through base= (setLatBase)
+            lats.append({"kind": "rot-base", "of": 1, "rot": rotation(rng).tolist()})
         else:
-            lats.append(lattice_spec(rng, rng.choice(["oblique-rot", "oblique-rot", "oblique", "base", "hex", "ortho", "mono", "cubic"])))
+            lats.append(lattice_spec(rng, rng.choice(["oblique-rot", "oblique", "base", "base", "base", "hex", "ortho", "mono", "cubic"])))
     na = rng.choice([0, 1, 1, 2, 3, 4, 5])
     atoms = []
     for i in range(na):
@@ -68,6 +74,11 @@ def build_lats(case):
             out.append(Lattice(base=b))
         elif s["kind"] == "copy":
             out.append(Lattice(out[s["of"] - 1]))
+        elif s["kind"] == "rot-baserot":
+            L0 = out[s["of"] - 1]
+            out.append(Lattice(*L0.abcABG(), baserot=np.dot(L0.baserot, np.array(s["rot"]))))
+        elif s["kind"] == "rot-base":
+            out.append(Lattice(base=np.dot(out[s["of"] - 1].base, np.array(s["rot"]))))
         else:
             out.append(make_lattice(s))
     return out
@@ -183,6 +194,15 @@ def run_case(case):
                 su = max(np.abs(p["U"]).max(), 1e-300)
                 if not np.abs(p["U"] - c["U"]).max() <= RTOL * su * K * K:
                     fails.append((n, "ncell_fold", "atom %d: tensor changed in a supercell: %r -> %r" % (i, p["U"].tolist(), c["U"].tolist())))
+        bp, bn = np.array(lats[curk - 1].base, dtype=float), np.array(L.base, dtype=float)
+        if np.abs(bp - bn).max() <= 1e-12 * np.abs(bp).max():
+            # same lattice object or an equal copy: nothing may change
+            for i, (p, c) in enumerate(zip(prev, cur)):
+                sx = max(1.0, np.abs(p["xyz"]).max())
+                su = max(np.abs(p["U"]).max(), 1e-300)
+                if not np.abs(p["xyz"] - c["xyz"]).max() <= RTOL * sx * K or not np.abs(p["U"] - c["U"]).max() <= RTOL * su * K * K:
+                    fails.append((n, "same_lattice", "atom %d changed when placed into an identical lattice: xyz %r -> %r, U %r -> %r" % (
+                        i, p["xyz"].tolist(), c["xyz"].tolist(), p["U"].tolist(), c["U"].tolist())))
         if k in seen:                        # there and back / chains compose
             old = seen[k]
             for i, (p, c) in enumerate(zip(old, cur)):
@@ -215,6 +235,199 @@ def run_case(case):
 def snapshot_k(L):
     base, N, RN = plain_geometry(L)
     return math.sqrt(float((N ** 2).sum()) * float((RN ** 2).sum()))
+
+
+# ---------------------------------------------------------------- supercell headers of DISCUS / PDFfit files
+
+NCELLS = [(2, 1, 1), (1, 3, 2), (2, 2, 2), (1, 1, 2), (3, 1, 1), (1, 2, 1), (2, 3, 1), (1, 1, 1)]
+
+
+def std_base(a, b, c, al, be, ga):
+    """base vectors of a cell in the standard orientation (c along z, b in the yz plane), plain numpy"""
+    import numpy as np
+
+    ca, cb, cg = (math.cos(math.radians(x)) for x in (al, be, ga))
+    sa = math.sin(math.radians(al))
+    ay = a * (cg - cb * ca) / sa
+    az = a * cb
+    ax = math.sqrt(a * a - ay * ay - az * az)
+    return np.array([[ax, ay, az], [0.0, b * sa, b * ca], [0.0, 0.0, c]])
+
+
+def norm_base(base):
+    import numpy as np
+
+    rec = np.linalg.inv(base)
+    return base * np.sqrt((rec ** 2).sum(axis=0))[:, None]
+
+
+def gen_ncell_case(rng):
+    fmt = rng.choice(["discus", "pdffit"])
+    spec = lattice_spec(rng, rng.choice(["ortho", "hex", "mono", "oblique", "oblique", "cubic"]))
+    cell = ["%.6f" % x for x in spec["par"]]
+    n = list(rng.choice(NCELLS))
+    n4 = rng.choice([1, 1, 2])
+    atoms = []
+    for _ in range(n[0] * n[1] * n[2] * n4):
+        a = {"el": rng.choice(["Ni", "O", "C"]), "xyz": ["%.8f" % rng.uniform(0, n[i]) for i in range(3)]}
+        if fmt == "discus":
+            a["B"] = "%.4f" % rng.uniform(0.05, 3.0)
+        else:
+            a["occ"] = "%.4f" % rng.choice([1.0, 0.5, 0.25])
+            a["style"] = rng.choice(["aniso", "aniso", "iso"])
+            a["u"] = rng.uniform(0.002, 0.05)
+        atoms.append(a)
+    return {"fmt": fmt, "cell": cell, "ncell": n + [n4], "atoms": atoms, "seed": rng.randrange(1 << 30)}
+
+
+def ncell_text(c):
+    """the file text; PDFfit tensors of `iso` atoms are u x (unit isotropic tensor of the small cell)"""
+    import random
+
+    import numpy as np
+
+    rng = random.Random(c["seed"])
+    cellf = [float(x) for x in c["cell"]]
+    out = ["title  generated supercell"]
+    if c["fmt"] == "pdffit":
+        out += ["format pdffit", "scale   1.000000", "sharp   0.000000, 0.000000, 1.000000, 0.000000"]
+    out += ["spcgr  P1", "cell   " + ", ".join(c["cell"])]
+    if c["fmt"] == "pdffit":
+        out.append("dcell   0.000000,  0.000000,  0.000000,  0.000000,  0.000000,  0.000000")
+    out.append("ncell  %9i, %9i, %9i, %9i" % tuple(c["ncell"]))
+    out.append("atoms")
+    tensors = []
+    if c["fmt"] == "pdffit":
+        N0 = norm_base(std_base(*cellf))
+        RN0 = np.linalg.inv(N0)
+        iu = RN0.T @ RN0
+    for a in c["atoms"]:
+        if c["fmt"] == "discus":
+            out.append("%-4s %s, %s, %s, %s" % (a["el"].upper(), a["xyz"][0], a["xyz"][1], a["xyz"][2], a["B"]))
+            tensors.append(None)
+            continue
+        if a["style"] == "iso":
+            U = a["u"] * iu
+        else:
+            U = np.array(sym_tensor(rng, "pd"))
+        t = [["%.12f" % U[i, j] for j in range(3)] for i in range(3)]
+        tensors.append(np.array([[float(t[min(i, j)][max(i, j)]) for j in range(3)] for i in range(3)]))
+        z = "0.00000000"
+        out.append("%-4s %s %s %s %s" % (a["el"].upper(), a["xyz"][0], a["xyz"][1], a["xyz"][2], a["occ"]))
+        out.append("     %s %s %s 0.0000" % (z, z, z))
+        out.append("     %s %s %s" % (t[0][0], t[1][1], t[2][2]))
+        out.append("     %s %s %s" % (z, z, z))
+        out.append("     %s %s %s" % (t[0][1], t[0][2], t[1][2]))
+        out.append("     %s %s %s" % (z, z, z))
+    return "\n".join(out) + "\n", tensors
+
+
+def run_ncell_case(c):
+    """Reads the text with the real parser. Returns (failures, model line or None, parsed rows, K)."""
+    import numpy as np
+    from diffpy.structure import Lattice, Structure
+
+    text, tensors = ncell_text(c)
+    cellf = [float(x) for x in c["cell"]]
+    n = np.array(c["ncell"][:3], dtype=float)
+    nat = len(c["atoms"])
+    fails = []
+    s = Structure()
+    try:
+        s.readStr(text, c["fmt"])
+    except Exception as e:
+        return [("raises", "%s: %s" % (type(e).__name__, e))], None, None, 3.0
+    B0 = std_base(*cellf)
+    N0 = norm_base(B0)
+    Bexp = B0 * n[:, None]
+    K = max(snapshot_k(s.lattice), 3.0)
+    if len(s) != nat:
+        return [("atom_count", "read %d atoms, the file has %d" % (len(s), nat))], None, None, K
+    got_cell = np.array(s.lattice.abcABG())
+    exp_cell = np.array([cellf[0] * n[0], cellf[1] * n[1], cellf[2] * n[2]] + cellf[3:])
+    if not np.abs(got_cell - exp_cell).max() <= 1e-9 * np.abs(exp_cell).max():
+        fails.append(("supercell_lattice", "cell %r, expected the multiplied cell %r" % (got_cell.tolist(), exp_cell.tolist())))
+    Bgot = np.array(s.lattice.base, dtype=float)
+    if not np.abs(Bgot - Bexp).max() <= 1e-9 * np.abs(Bexp).max() * K:
+        fails.append(("supercell_lattice", "base %r, expected %r" % (Bgot.tolist(), Bexp.tolist())))
+    Ngot = norm_base(Bgot)
+    rows = []
+    for i, (a, at, T) in enumerate(zip(c["atoms"], s, tensors)):
+        fx = np.array([float(x) for x in a["xyz"]])
+        cart_exp = fx @ B0
+        xyz = np.array(at.xyz, dtype=float)
+        cart = xyz @ Bgot
+        sc = max(1.0, np.abs(cart_exp).max())
+        if at.lattice is not s.lattice:
+            fails.append(("lattice_is_new", "atom %d does not refer to the structure's lattice" % i))
+        if not np.abs(cart - cart_exp).max() <= RTOL * sc * K:
+            fails.append(("cart_preserved", "atom %d: Cartesian position %r, the file says %r (fractional %r in the cell %r)" % (
+                i, cart.tolist(), cart_exp.tolist(), a["xyz"], c["cell"])))
+        if not np.abs(xyz - fx / n).max() <= RTOL * max(1.0, np.abs(fx).max()) * K:
+            fails.append(("ncell_fold", "atom %d: fractional coordinates %r, expected %r / %r" % (i, xyz.tolist(), a["xyz"], c["ncell"][:3])))
+        Ucur = np.array(copy.copy(at).U, dtype=float)
+        Uc = Ngot.T @ Ucur @ Ngot
+        if c["fmt"] == "discus":
+            uexp = float(a["B"]) / K8PI2
+            Uc_exp = uexp * np.eye(3)
+        else:
+            Uc_exp = N0.T @ T @ N0
+            uexp = float(np.trace(Uc_exp)) / 3.0
+        su = max(np.abs(Uc_exp).max(), 1e-300)
+        if not np.abs(Uc - Uc_exp).max() <= RTOL * su * K * K:
+            fails.append(("Ucart_preserved", "atom %d: Cartesian tensor %r, the file says %r" % (i, Uc.tolist(), Uc_exp.tolist())))
+        if not abs(float(at.Uisoequiv) - uexp) <= RTOL * su * K * K:
+            fails.append(("uiso_preserved", "atom %d: Uisoequiv %r, the file says %r" % (i, float(at.Uisoequiv), uexp)))
+        rows.append({"xyz": xyz, "aniso": bool(at.anisotropy), "U": Ucur, "uiso": float(at.Uisoequiv), "fx": fx, "T": T, "uexp": uexp})
+    if list(s.pdffit.get("ncell", [])) != [1, 1, 1, nat]:
+        fails.append(("ncell_record", "pdffit['ncell'] = %r after reading" % (s.pdffit.get("ncell"),)))
+    # the same folding through the model: small cell (as the implementation builds it) -> the lattice the reader produced
+    L0 = Lattice(*cellf)
+    words = ["place.chain", "2"] + lat_words(L0) + lat_words(s.lattice) + [str(nat)]
+    words += ["1" if r["aniso"] else "0" for r in rows]
+    for r in rows:
+        words += [bits(x) for x in r["fx"]]
+        if r["aniso"]:
+            words += [bits(x) for x in r["T"].reshape(9)]
+        else:
+            words += [bits(r["uexp"] if r["T"] is None else float(r["T"][0, 0]))] + [bits(0.0)] * 8
+    words.append("2")
+    return fails, " ".join(words), rows, K
+
+
+def ncell_stream(ck):
+    """DISCUS / PDFfit texts with supercell headers through the real readers. Returns failures to report."""
+    ncase = 60 if ck.tier == "quick" else 600
+    cases = [gen_ncell_case(ck.rng) for _ in range(ncase)]
+    res = [run_ncell_case(c) for c in cases]
+    lines = [r[1] for r in res if r[1] is not None]
+    outs = iter(common.driver(lines)) if lines else iter(())
+    out = []
+    hist = {}
+    for c, (fails, line, rows, K) in zip(cases, res):
+        key = "%s:%s" % (c["fmt"], "x".join(map(str, c["ncell"][:3])))
+        hist[key] = hist.get(key, 0) + 1
+        ck.coverage["evaluations"] += 1
+        if tuple(c["ncell"][:3]) != (1, 1, 1):
+            ck.coverage["distinct_nontrivial"] += 1
+        dis = None
+        if line is not None:
+            mod = parse_model(next(outs), len(rows), 1)
+            ck.coverage["traces_validated_against_impl"] += 1
+            if mod is None or len(mod) != 1:
+                dis = "model output unusable"
+            else:
+                dis = compare(rows, mod[0], K * K)
+        if fails:
+            clause, detail = fails[0]
+            out.append(("ncell:%s:%s" % (key, clause), "reading a %s text with ncell %r violates %s: %s" % (c["fmt"], c["ncell"], clause, detail),
+                        {"kind": "ncell", "case": c, "clause": clause, "detail": detail, "all": [a for a, _ in fails[:10]],
+                         "model_disagrees": bool(dis)}))
+        elif dis:
+            out.append(("ncell:%s:model" % key, "the reader's supercell folding disagrees with DS.Props.C14.ncell_fold_xyz / ncell_fold_U (model): %s" % dis,
+                        {"kind": "ncell", "case": c, "clause": "model", "detail": dis}))
+    ck.coverage.setdefault("histograms_ncell", hist)
+    return out
 
 
 def parse_model(out, na, nsteps):
@@ -268,6 +481,7 @@ def run(ck):
     rng = ck.rng
     cases, lines, recs = [], [], []
     hist = {"atoms": {}, "chain_len": {}, "lattice_kinds": {}, "aniso_atoms": 0, "iso_atoms": 0}
+    concrete, corr, hyp = [], [], []          # reported in this order: failing inputs first (the list of replays is capped)
     for _ in range(ncase):
         case = gen_case(rng, maxchain)
         line, steps, fails, ks = run_case(case)
@@ -286,8 +500,8 @@ def run(ck):
         for spec, L in zip(case["lats"], build_lats(case)):
             bad = latok_defects(L)
             if bad:
-                ck.fail("latok:%s:%s" % (spec["kind"], bad[0]), "a Lattice object violates the hypotheses LatOK of the C14 theorems: %r on %r" % (bad, spec),
-                        {"kind": "hypothesis", "case": case, "fields": bad}, no_failing_input=True)
+                hyp.append(("latok:%s:%s" % (spec["kind"], bad[0]), "a Lattice object violates the hypotheses LatOK of the C14 theorems: %r on %r" % (bad, spec),
+                            {"kind": "hypothesis", "case": case, "fields": bad}))
     outs = common.driver(lines)
     nontriv = 0
     for case, line, out, (steps, fails, ks) in zip(cases, lines, outs, recs):
@@ -310,20 +524,27 @@ def run(ck):
                     break
         if fails:
             n, clause, detail = fails[0]
-            ck.fail(case_key(case, clause), "placement %d of the chain %r violates %s: %s" % (n, case["chain"], clause, detail),
-                    {"kind": "place", "case": case, "step": n, "clause": clause, "detail": detail,
-                     "all": [(a, b) for a, b, _ in fails[:10]], "model_disagrees": dis is not None})
+            concrete.append((case_key(case, clause), "placement %d of the chain %r violates %s: %s" % (n, case["chain"], clause, detail),
+                             {"kind": "place", "case": case, "step": n, "clause": clause, "detail": detail,
+                              "all": [(a, b) for a, b, _ in fails[:10]], "model_disagrees": dis is not None}))
         elif dis is not None:
-            ck.fail(case_key(case, "correspondence"), "model and implementation disagree at placement %d: %s" % dis,
-                    {"kind": "correspondence", "case": case, "step": dis[0], "difference": dis[1],
-                     "theorem": "DS.Props.C14 (model DS.placeInLattice no longer describes structure.py)"}, no_failing_input=True)
+            corr.append((case_key(case, "correspondence"), "model and implementation disagree at placement %d: %s" % dis,
+                         {"kind": "correspondence", "case": case, "step": dis[0], "difference": dis[1],
+                          "theorem": "DS.Props.C14 (model DS.placeInLattice no longer describes structure.py)"}))
+    concrete += ncell_stream(ck)
+    for key, what, rep in concrete:
+        ck.fail(key, what, rep)
+    for key, what, rep in corr + hyp:
+        ck.fail(key, what, rep, no_failing_input=True)
     ck.coverage["distinct_nontrivial"] += nontriv
     ck.coverage["rule"] = (
         "seeded random structures of 0-5 atoms (anisotropic symmetric tensors, isotropic values, atoms switched to isotropic after an "
         "anisotropic assignment, zero ADPs) in a random lattice, placed through chains of 1-%d lattices drawn from {oblique+rotated, oblique, "
-        "from base vectors, hexagonal, orthogonal, monoclinic, cubic, supercell of the first (ncell folding), copy of the first}, "
+        "from base vectors (setLatBase), hexagonal, orthogonal, monoclinic, cubic, supercell of the first (ncell folding), copy of the first, "
+        "the first cell re-oriented (same six parameters, other rotation) through baserot= and through base=}, the same object may be repeated; "
         "40%% of the chains return to the first lattice; compared with the Float model after every placement; oracle with plain numpy from "
-        "lattice.base only. distinct_nontrivial = cases with an anisotropic atom placed into a non-orthogonal lattice" % maxchain)
+        "lattice.base only. Second stream: generated DISCUS and PDFfit texts with ncell headers (2,1,1 / 1,3,2 / 2,2,2 ...) read by the real parsers, "
+        "compared with the plain-numpy expectation (Cartesian positions = file coordinates x small-cell base, multiplied cell, tensors) and with the model. distinct_nontrivial = cases with an anisotropic atom placed into a non-orthogonal lattice" % maxchain)
     ck.coverage["histograms"] = hist
     ck.coverage["samples"] = [{"case": cases[0]}]
     ck.coverage["trusted_base"] += ["harness/c14.py, harness/c09.py (generators, plain-numpy oracle)",
@@ -370,6 +591,17 @@ def replay(path):
         bad = [latok_defects(L) for L in build_lats(r["case"])]
         print("LatOK defects:", bad)
         return 1 if any(bad) else 0
+    if r.get("kind") == "ncell":
+        fails, line, rows, K = run_ncell_case(r["case"])
+        print("oracle failures:", fails[:5])
+        if fails:
+            return 1
+        if r.get("clause") == "model" and line is not None:
+            mod = parse_model(common.driver([line])[0], len(rows), 1)
+            dis = "model output unusable" if (mod is None or len(mod) != 1) else compare(rows, mod[0], K * K)
+            print("model disagreement:", dis)
+            return 1 if dis else 0
+        return 0
     if r.get("kind") in ("place", "correspondence"):
         case = r["case"]
         line, steps, fails, ks = run_case(case)
